@@ -366,7 +366,7 @@ func (e *Exec) applyContract(st *State, fr *Frame, fn *ssa.Function, ct *Contrac
 	}
 	detKey := ""
 	if ct.Deterministic {
-		detKey = e.detKey(fn, args)
+		detKey = e.detKey(st, fn, args)
 		if detKey != "" {
 			e.UsedIntrinsics["assumed deterministic (equal arguments give equal results): "+fnDisplay(fn)] = true
 			if m, ok := st.Ghost[detKey].(*detMemo); ok {
@@ -449,10 +449,22 @@ type detMemo struct {
 }
 
 // detKey identifies a call by its argument values; only scalar and string arguments (immutable) qualify.
-func (e *Exec) detKey(fn *ssa.Function, args []Val) string {
+func (e *Exec) detKey(st *State, fn *ssa.Function, args []Val) string {
 	k := "det:" + fn.String()
 	for _, a := range args {
 		switch x := a.(type) {
+		case *SliceVal:
+			// a slice of scalars is identified by its current contents (an immutable value: every write makes
+			// a new one), offset and length
+			if x.Obj == 0 {
+				k += "|nil" + fmt.Sprint(x.Len.ID())
+				continue
+			}
+			av := e.sliceBacking(st, x)
+			if av == nil || !av.Scalar {
+				return ""
+			}
+			k += fmt.Sprintf("|b%p.%d.%d", av.C, x.Off.ID(), x.Len.ID())
 		case *Term:
 			k += fmt.Sprintf("|t%d", x.ID())
 		case *StringVal:
